@@ -96,6 +96,8 @@ static void w_end(void)
 		case WK_GUID:
 			memset(b, 0, 16); w_add_alt(T, f, b);
 			memcpy(b, T->bytes + f->off, 16); b[0] ^= 1; w_add_alt(T, f, b);
+			/* the first two bytes of the sub-format GUID are a format tag of their own: the 16-bit menu applies */
+			for (unsigned k = 0; k < sizeof(m16) / sizeof(m16[0]); k++) { memcpy(b, T->bytes + f->off, 16); b[0] = (uint8_t)m16[k]; b[1] = (uint8_t)(m16[k] >> 8); w_add_alt(T, f, b); }
 			break;
 		}
 	}
